@@ -4,6 +4,8 @@ NEXT Next
 CONSTANTS
   EpochFmt = TRUE
   KeepLB = TRUE
+  BestTrain = FALSE
+  Params <- FsP0
   MaxE = 4
   MaxCrash = 2
   Levels = {1, 2, 3}
@@ -14,4 +16,6 @@ INVARIANT BestLoadable
 INVARIANT ExactlyTwo
 INVARIANT AllLoadable
 INVARIANT Convergent
+INVARIANT LiveRate
+INVARIANT Export
 CHECK_DEADLOCK FALSE
